@@ -894,6 +894,8 @@ SPECS["C13"]["theorems"] += [
     "Woodpile.Props.C13.ra_sync_order",
     "Woodpile.Props.C13.ra_synced_update_visible",
     "Woodpile.Props.C13.call_arguments_fixed",
+    "Woodpile.Props.C13.sc_only_holder_publishes",
+    "Woodpile.Props.C13.ra_only_holder_publishes",
 ]
 SPECS["C18"]["theorems"] += [
     "Woodpile.Props.C18.sc_retry_only_on_publish_during",
@@ -902,6 +904,7 @@ SPECS["C18"]["theorems"] += [
     "Woodpile.Props.C18.ra_solo_is_run",
     "Woodpile.Props.C18.ra_latest_admissible",
     "Woodpile.Props.C18.unlocked_is_abt_snapshot",
+    "Woodpile.Props.C18.ra_solo_latest_terminates",
 ]
 SPECS["C19"]["theorems"] += [
     "Woodpile.Props.C19.chkNat_is_chkReal",
@@ -921,7 +924,7 @@ SPECS["C13"]["level_text"] += (' Track abt2: the history is tied to CALLS. State
     'on SC "before" is real time: U\'s last step precedes S\'s start label (sc_real_time_order, sc_completed_update_visible).')
 SPECS["C18"]["level_text"] += (' Track abt2: ONE uniform termination statement on the view machine (ra_solo_snapshot_terminates_uniform: for every '
     'adversarial but admissible reads-from strategy the solo reader returns within soloMeasure own steps; admissible strategies exist, '
-    'ra_latest_admissible; RA.solo is a machine run, ra_solo_is_run); a retry implies a newer sequence message that is beyond the snapshot\'s start '
+    'ra_latest_admissible, and reading the latest message gives the SC bound 6, ra_solo_latest_terminates; RA.solo is a machine run, ra_solo_is_run); a retry implies a newer sequence message that is beyond the snapshot\'s start '
     '(start <= sq < new: …_retry_only_on_publish_during, both machines); unlocked_is_abt_snapshot is about the NFS model\'s own getBaseTimeUnlocked: '
     'from any reachable SC state (writer frozen holding the lock, mutex poisoned or not) four loads, nothing shared changes, same pair.')
 SPECS["C19"]["level_text"] += (' Track abt2: the cell of the model is no longer an independent definition: cellUpdate / cellSnapshot / '
